@@ -98,6 +98,10 @@ func (h *hist) genClientProposal(focus string) prop {
 	rng := h.rng
 	title, descr := genTitle(rng)
 	w := rng.Intn(100)
+	if focus != "" && rng.Intn(2) == 0 {
+		// several proposals on one chain in flight: toggles are what makes the stored state change under a later proposal
+		w = 60 + rng.Intn(40)
+	}
 	switch {
 	case w < 8:
 		// register relayer
